@@ -46,12 +46,13 @@ type Event struct {
 }
 
 type StoreEvent struct {
-	Key  string
-	Obj  *Obj
-	Path []Sel
-	V    Val
-	Fn   *ssa.Function
-	Pos  token.Pos
+	Key    string
+	Obj    *Obj
+	Path   []Sel
+	V      Val
+	Fn     *ssa.Function
+	Pos    token.Pos
+	GuardL []GuardInfo
 }
 
 // Hooks let a rule model what lies outside the interpreted code.
